@@ -334,8 +334,8 @@ func secStr(secure bool, err error) string {
 func coverIn(rs []rec3, h []byte) *rec3 {
 	for i := range rs {
 		r := &rs[i]
-		if r.ownerHash == nil || r.next == nil || !usable3(*r) {
-			continue
+		if r.ownerHash == nil || r.next == nil || !usable3(*r) || !r.owner().fold().under(curZ3.z.apex) {
+			continue // FilterRRsToZone / the signer binding never lets such a record take part
 		}
 		on, ho, hn := bytes.Compare(r.ownerHash, r.next), bytes.Compare(h, r.ownerHash), bytes.Compare(h, r.next)
 		var c bool
@@ -356,7 +356,7 @@ func coverIn(rs []rec3, h []byte) *rec3 {
 
 func matchIn(rs []rec3, h []byte) *rec3 {
 	for i := range rs {
-		if usable3(rs[i]) && bytes.Equal(rs[i].ownerHash, h) {
+		if usable3(rs[i]) && bytes.Equal(rs[i].ownerHash, h) && rs[i].owner().fold().under(curZ3.z.apex) {
 			return &rs[i]
 		}
 	}
